@@ -114,7 +114,7 @@ Gauden(f) ==
                                              ELSE IF n > (f.len - (q + 4)) \div 4 THEN Bad("gau:data-cut")
                                              ELSE LET c == ChkState(f, H, dend) IN
                                                   IF c = "F" THEN Bad("gau:checksum")
-                                                  ELSE IF c = "U" THEN Unk("gau:checksum")
+                                                  ELSE IF c = "U" THEN [st |-> "unk", why |-> "gau:checksum", pos |-> H.pos, dend |-> dend, sw |-> H.sw]
                                                   ELSE [st |-> "ok", pos |-> H.pos, dend |-> dend, end |-> EndOf(H, dend), sw |-> H.sw, chk |-> H.chk,
                                                         d |-> [n_mgau |-> nm, n_feat |-> nf, n_density |-> nd, veclen |-> vl],
                                                         flds |-> H.flds \o <<Fld("n_mgau", p, "i32", nm), Fld("n_feat", p + 4, "i32", nf),
@@ -140,7 +140,7 @@ Tmat(f) ==
                       ELSE IF w[4] > (f.len - (p + 16)) \div 4 THEN Bad("tmat:data-cut")
                       ELSE LET c == ChkState(f, H, dend) IN
                            IF c = "F" THEN Bad("tmat:checksum")
-                           ELSE IF c = "U" THEN Unk("tmat:checksum")
+                           ELSE IF c = "U" THEN [st |-> "unk", why |-> "tmat:checksum", pos |-> H.pos, dend |-> dend, sw |-> H.sw]
                            ELSE [st |-> "ok", pos |-> H.pos, dend |-> dend, end |-> EndOf(H, dend), sw |-> H.sw, chk |-> H.chk,
                                  d |-> [n_tmat |-> w[1], n_state |-> w[2]],
                                  flds |-> H.flds \o <<Fld("n_tmat", p, "i32", w[1]), Fld("n_src", p + 4, "i32", w[2]),
@@ -183,7 +183,7 @@ Lda(f) ==
                            ELSE IF ~ProdIs(w[4], <<w[1], w[2], w[3]>>) THEN Bad("lda:count-is-not-product")
                            ELSE LET c == ChkState(f, H, dend) IN
                                 IF c = "F" THEN Bad("lda:checksum")
-                                ELSE IF c = "U" THEN Unk("lda:checksum")
+                                ELSE IF c = "U" THEN [st |-> "unk", why |-> "lda:checksum", pos |-> H.pos, dend |-> dend, sw |-> H.sw]
                                 ELSE [st |-> "ok", pos |-> H.pos, dend |-> dend, end |-> EndOf(H, dend), sw |-> H.sw, chk |-> H.chk,
                                       d |-> [n_lda |-> w[1], rows |-> w[2], cols |-> w[3]],
                                       flds |-> H.flds \o <<Fld("n_lda", p, "i32", w[1]), Fld("rows", p + 4, "i32", w[2]),
@@ -274,8 +274,8 @@ Sendump(f, ctx) ==
                                                                    n_clust |-> a.n_clust, n_bits |-> a.n_bits, rows |-> r, cols |-> c],
                                                             flds |-> a.flds \o (IF a.n_clust = 0
                                                                                THEN <<Fld("rows", S.pos, "i32", r), Fld("columns", S.pos + 4, "i32", c)>>
-                                                                               ELSE <<Fld("codebook", q, "data", ncb)>>)
-                                                                    \o <<Fld("data", q + ncb, "data", need)>>]
+                                                                               ELSE <<Fld("codebook", q, "region", ncb)>>)
+                                                                    \o <<Fld("data", q + ncb, "region", need)>>]
 
 (* ------------------------------------------------------------------------------------------------------------
    binary model definition (bin_mdef.c; the layout is printed in the file's own format description):
@@ -313,7 +313,7 @@ Mdef(f) ==
                        IN  IF sc # "ok" THEN St(sc, "mdef:counts-cut")
                            ELSE LET c == WordsAt(f, p, 10, sw)
                                     q == p + 40
-                                IN  IF \E i \in {1, 2, 3, 4, 5, 6, 7, 9} : c[i] < 0 THEN Bad("mdef:negative-count")
+                                IN  IF \E i \in {1, 2, 3, 5, 7, 9} : c[i] < 0 THEN Bad("mdef:negative-count")   \* the counts that size a part of the file or of the tables built from it
                                     ELSE IF c[1] = 0 THEN Bad("mdef:no-phones")
                                     ELSE LET ne == Names(f, q, c[1]) IN
                                          IF ne = -2 THEN Unk("mdef:names")
@@ -324,11 +324,12 @@ Mdef(f) ==
                                                    IF c[2] > (f.len - ph) \div 12 THEN Bad("mdef:phones-cut")
                                                    ELSE LET ss == ph + 12 * c[2]
                                                             s1 == NeedW(f, ss, 1)
-                                                        IN  IF s1 # "ok" THEN St(s1, "mdef:sseq_size-cut")
+                                                        IN  IF s1 = "unk" THEN [st |-> "unk", why |-> "mdef:sseq_size", at |-> ss]
+                                                            ELSE IF s1 # "ok" THEN St(s1, "mdef:sseq_size-cut")
                                                             ELSE LET z == Rd32(f, ss, sw) IN
-                                                                 IF z < 0 THEN Bad("mdef:negative-count")
-                                                                 ELSE IF z > (f.len - (ss + 4)) \div 2 THEN Bad("mdef:sseq-cut")
-                                                                 ELSE LET sl == ss + 4 + 2 * z
+                                                                 \* (no loader relates sseq_size to n_sseq * n_emit_state: only "the area it announces fits" is claimed)
+                                                                 IF z > (f.len - (ss + 4)) \div 2 THEN Bad("mdef:sseq-cut")
+                                                                 ELSE LET sl == ss + 4 + 2 * (IF z < 0 THEN 0 ELSE z)
                                                                           e == IF c[3] = 0 THEN sl + c[7] ELSE sl
                                                                       IN  IF c[3] = 0 /\ ~Inside(f, sl, c[7]) THEN Bad("mdef:sseq_len-cut")
                                                                           ELSE [st |-> "ok", end |-> e, sw |-> sw,
@@ -341,9 +342,9 @@ Mdef(f) ==
                                                                                          \o [i \in 1 .. 10 |-> Fld(<<"n_ciphone", "n_phone", "n_emit_state", "n_ci_sen", "n_sen",
                                                                                                                     "n_tmat", "n_sseq", "n_ctx", "n_cd_tree", "sil">>[i],
                                                                                                                   p + 4 * (i - 1), "i32", c[i])]
-                                                                                         \o <<Fld("names", q, "data", ne - q), Fld("cd_tree", t, "data", 8 * c[9]),
-                                                                                              Fld("phones", ph, "data", 12 * c[2]), Fld("sseq_size", ss, "i32", z),
-                                                                                              Fld("sseq", ss + 4, "data", 2 * z)>>]
+                                                                                         \o <<Fld("names", q, "region", ne - q), Fld("cd_tree", t, "region", 8 * c[9]),
+                                                                                              Fld("phones", ph, "region", 12 * c[2]), Fld("sseq_size", ss, "i32", z),
+                                                                                              Fld("sseq", ss + 4, "region", 2 * z)>>]
 
 (* ------------------------------------------------------------------------------------------------------------
    The directory.  D == [mdef, means, variances, tmat, sendump, mixw, lda, featparams |-> file], fp == what the
